@@ -102,13 +102,18 @@ Definition is_finish (l : label) : bool := match l with Finish _ => true | _ => 
 Definition succs (c : cfg) (s : state) : list state :=
   flat_map (fun l => if is_finish l then [] else
                      match step c s l with Some s' => [canon s'] | None => [] end) (candidates s).
+(* None = gave up: out of fuel, or more than [max_states] compatible states.  The driver keeps the
+   unobservable part of a schedule small (one "dark" call at a time), so this is not expected to happen; if
+   it does it is reported as a mismatch - loudly - rather than accepted or skipped. *)
+Definition max_states : nat := 3000.
 Fixpoint closure (fuel : nat) (c : cfg) (seen frontier : list state) : option (list state) :=
   match frontier with
   | [] => Some seen
   | _ => match fuel with
          | O => None
          | S f => let new := fold_left (add_new seen) (flat_map (succs c) frontier) [] in
-                  closure f c (seen ++ new) new
+                  if max_states <? length seen + length new then None
+                  else closure f c (seen ++ new) new
          end
   end.
 Definition tau (c : cfg) (S : list state) : option (list state) := closure 400 c S S.
